@@ -71,6 +71,8 @@ def inner_menu():
     m = [
         ('plain3', select([(id_, None), (k, None), (v, None)], from_='t')),
         ('plain2', select([(k, None), (v, None)], from_='t')),
+        ('two-ints', select([(id_, 'a'), (A.Sub(C(9), v), 'b')], from_='t')),
+        ('two-strs', select([(k, 'a'), (F('str', v), 'b')], from_='t')),
         ('plain1', select([(v, None)], from_='t')),
         ('aliased', select([(v, 'a'), (k, 'b')], from_='t')),
         ('star', select(A.Asterisk(), from_='t')),
@@ -122,6 +124,15 @@ def outer_menu(names, types):
         if t is str:
             out.append(('str-expr', lambda sub, c=c: select([(F('upper', c), 'p'), (F('length', c), 'q')], from_=sub)))
             out.append(('str-where', lambda sub, c=c: select([(x, None) for x in cols], from_=sub, where=A.Match(c, C('a')))))
+    # keys on one inner column while another one is selected (hidden ORDER BY / GROUP BY keys)
+    for (n1, t1), (n2, t2) in itertools.permutations(list(zip(names, types)), 2):
+        c1, c2 = col(n1), col(n2)
+        if t2 is not bool:
+            out.append(('hidden-order', lambda sub, c1=c1, c2=c2: select([(c1, None)], from_=sub, order_by=[A.OrderBy(c2, DESC)])))
+        out.append(('hidden-group', lambda sub, c1=c1, c2=c2: select([(c1, None), (F('count', A.Asterisk()), 'n')], from_=sub, group_by=A.GroupBy([c1, c2], None))))
+        if t1 is int and t2 is int:
+            out.append(('hidden-order-expr', lambda sub, c1=c1, c2=c2: select([(A.Add(c1, C(1)), 'p')], from_=sub, order_by=[A.OrderBy(A.Add(c2, C(1)), ASC)])))
+            out.append(('hidden-group-expr', lambda sub, c1=c1, c2=c2: select([(A.Neg(c1), 'p'), (F('count', A.Asterisk()), 'n')], from_=sub, group_by=A.GroupBy([col('p'), A.Neg(c2)], None))))
     out.append(('limit1', lambda sub: select([(c, None) for c in cols], from_=sub, limit=1)))
     out.append(('order-pos', lambda sub: select([(c, None) for c in cols], from_=sub, order_by=[A.OrderBy(1, DESC)]) if types[0] is not bool else None))
     return out
@@ -284,6 +295,16 @@ def in_statements():
             out.append((f'{sn}|{op.__name__}|where-and', select([(id_, None), (v, None)], from_='t', where=A.And([A.IsNotNull(k), op(x, sub)]))))
             out.append((f'{sn}|{op.__name__}|two-subqueries', select([(id_, None), (op(x, sub), 'm'), (A.In(id_, select([(j, None)], from_='u')), 'n'), (v, None)], from_='t')))
             out.append((f'{sn}|{op.__name__}|agg-where', select([(k, None), (F('count', A.Asterisk()), 'n')], from_='t', where=op(x, sub), group_by=A.GroupBy([k], None))))
+    # the enclosing query reads another table than the sub-query, which itself nests an IN sub-query
+    nested = select([(v, None)], from_='t', where=A.In(v, select([(j, None)], from_='u')))
+    nested2 = select([(v, None)], from_='t', where=A.In(id_, select([(id_, None)], from_='t', where=A.In(v, select([(j, None)], from_='u')))))
+    for nn, sub in (('nested', nested), ('nested2', nested2)):
+        for op in (A.In, A.NotIn):
+            out.append((f'outer-u-{nn}|{op.__name__}|where', select([(j, None), (s, None)], from_='u', where=op(j, sub))))
+            out.append((f'outer-u-{nn}|{op.__name__}|target-first', select([(op(j, sub), 'm'), (j, None), (s, None)], from_='u')))
+            out.append((f'outer-u-{nn}|{op.__name__}|target-middle', select([(j, None), (op(j, sub), 'm'), (s, None)], from_='u', order_by=[A.OrderBy(j, DESC)])))
+            out.append((f'outer-subq-{nn}|{op.__name__}|where', select([(col('jj'), None)], from_=select([(j, 'jj'), (s, 'ss')], from_='u'), where=op(col('jj'), sub))))
+            out.append((f'outer-subq-{nn}|{op.__name__}|target-first', select([(op(col('jj'), sub), 'm'), (col('ss'), None)], from_=select([(j, 'jj'), (s, 'ss')], from_='u'))))
     return out
 
 
